@@ -116,7 +116,7 @@ fn main() {
     }
     eprintln!(
         "vh {} [{} {} seed={}]: evaluations={} distinct_nontrivial={} violations={} inconclusive={} wall={:.1}s",
-        ctx.stage, ctx.build, ctx.tier, ctx.seed, acc.evaluations, acc.distinct.len(), acc.violations.len(),
+        ctx.stage, ctx.build, ctx.tier, ctx.seed, acc.evaluations, acc.distinct.len() as u64 + acc.distinct_enumerated, acc.violations.len(),
         acc.inconclusive.len(), wall
     );
     for v in acc.violations.iter().take(5) {
